@@ -18,7 +18,7 @@ Definition acut (p : list Z) (a : abs) : bool := fixedk a && (aroom a <? len p).
 
 (* the text a number stands for: decimal, '-' for negative values; u is the 64-bit pattern *)
 Definition num_piece (u : Z) (positive : bool) : list Z :=
-  if positive then print_nat u else 45 :: print_nat (two64 - u).
+  if positive then print_nat u else 45 :: print_nat ((two64 - u) mod two64).     (* magnitude: ~u + 1 *)
 
 (* the piece an append-like operation contributes *)
 Definition piece (o : op) : list Z :=
@@ -72,6 +72,6 @@ Definition ok_op (o : op) : Prop :=
   match o with
   | OFill n _ => 0 <= n
   | OResize n _ => 0 <= n
-  | ONum u p => 0 <= u < two64 /\ (p = false -> 0 < u)
+  | ONum u _ => 0 <= u < two64
   | _ => True
   end.
